@@ -87,13 +87,13 @@ enum Bad : uint8_t {
   B_SORTED_FIND,      // findEdgeSortedByDst disagrees with findEdge on a sorted list
   B_UNSORTED,         // enumeration of a sorted-neighbour node / after sortEdgesByDst is not sorted
   B_GUIDE_MISSING,    // serial replay: the edge picked in the recorded run does not exist
-  B_FIND_AFTER_REMOVE,// (unused)
+  B_ENUM_UNSTABLE,    // two enumerations of an owned neighbourhood inside one item differ
 };
 inline const char* badName(unsigned b) {
   static const char* n[] = {"none", "addEdge-returned-end", "iterator-wrong-destination", "addEdge-duplicated-existing-edge",
                             "addEdge-returned-initialised-edge-not-found-before", "addMultiEdge-data-not-initialised",
                             "findEdgeSortedByDst-disagrees-with-findEdge", "adjacency-not-sorted",
-                            "replay-picked-edge-missing", "?"};
+                            "replay-picked-edge-missing", "enumeration-changed-while-neighbourhood-owned"};
   return b < 10 ? n[b] : "?";
 }
 struct Res {
